@@ -197,3 +197,40 @@ def scenarios():
         out.append(material(c, True))
         out.append(material(c, False))
     return out
+
+
+def fingerprint_eq(kind):
+    """Fingerprint.__eq__: another fingerprint must be identical; a plain string may also be the key id or the short id, spaces ignored"""
+    import z3
+    from pyvc import scn, engine as E
+    from pyvc.runner import Scenario
+    label = 'C18/Fingerprint.__eq__[%s]' % kind
+    FPC = 'pgpy.types.Fingerprint'
+
+    def gen(repo):
+        r = scn.Run(repo, FPC, '__eq__', label)
+        ex, st = r.ex, r.st
+        FP, OTHER = z3.Const('FINGERPRINT', E.BYTES), z3.Const('OTHER', E.BYTES)
+        st.pc += [z3.Length(FP) == 40]
+        me = E.VStr(z=FP, cls=FPC)
+        other = E.VStr(z=OTHER, cls=FPC) if kind == 'fingerprint' else E.VStr(z=OTHER)
+        NOSP = z3.Function("STR_REPLACE[' '->'']", E.BYTES, E.BYTES)
+        for pi, (s, v) in enumerate(r.call(me, [other])):
+            if isinstance(v, E.Raise):
+                r.oblige(s, 'safety(%s)/p%d' % (v.exc.split(':')[0], pi), z3.BoolVal(False), v.where)
+                continue
+            if kind == 'fingerprint':
+                r.oblige(s, 'equal-iff-the-same-40-digits/p%d' % pi, ex.truth(v, s) == (FP == OTHER))
+            else:
+                n = NOSP(OTHER)
+                r.oblige(s, 'equal-iff-the-string-without-spaces-is-the-fingerprint,its-low-64-bits-or-its-low-32-bits/p%d' % pi,
+                         ex.truth(v, s) == z3.Or(FP == n, z3.Extract(FP, 24, 16) == n, z3.Extract(FP, 32, 8) == n))
+        return r.result()
+    return Scenario(label, FPC + '.__eq__', gen, props=('C18', 'C19', 'C16'))
+
+
+_base_scn_f = scenarios
+
+
+def scenarios():
+    return _base_scn_f() + [fingerprint_eq('fingerprint'), fingerprint_eq('string')]
